@@ -214,6 +214,8 @@ class Polygon(Shape2D):
             scale (float):
                 Scale factor.
         """
+        if not scale > 0:
+            raise ValueError("Size-like properties can only be set to positive values.")
         self._vertices *= scale
 
     @property
